@@ -102,6 +102,7 @@ type MemSpec struct {
 //	minc A      mem[A] = mem[A] + 1 (one byte)
 //	mgrow       memory.grow 1 (result dropped)
 //	tset A B C  table A (funcref) slot B = ftab[C]
+//	call A      call function A (an import or an earlier function of the module), results dropped
 //	trap        unreachable
 type Op struct {
 	K string `json:"k"`
@@ -231,7 +232,7 @@ type accInfo struct {
 
 func accName(acc string, idx, sig int) string {
 	switch acc {
-	case "gcall", "tcall":
+	case "gcall", "tcall", "gxcall":
 		return fmt.Sprintf("%s%d_%d", acc, idx, sig)
 	case "load8", "store8", "load32", "store32", "msize", "mgrow":
 		return acc
@@ -283,10 +284,19 @@ func (s *ModSpec) accessors() []accInfo {
 			out = append(out, accInfo{a, 0, 0})
 		}
 	}
+	var mutInt []int // the first few mutable integer globals
+	for i, g := range v.gt {
+		if g.mut && (g.vt == wasmenc.I32 || g.vt == wasmenc.I64) && len(mutInt) < 3 {
+			mutInt = append(mutInt, i)
+		}
+	}
 	for i := range v.fsig {
 		out = append(out, accInfo{"call", i, 0})
 		if v.hasMem {
 			out = append(out, accInfo{"xcall", i, 0})
+		}
+		for _, gi := range mutInt {
+			out = append(out, accInfo{"gxcall", i, gi}) // Sig carries the global index
 		}
 	}
 	return out
@@ -350,6 +360,13 @@ func emitOps(b *wasmenc.B, ops []Op, v *view, ftab uint32) {
 			b.I32Const(1).MemoryGrow().Drop()
 		case "tset":
 			b.I32Const(int32(o.B)).I32Const(int32(o.C)).TableGet(ftab).TableSet(uint32(o.A))
+		case "call":
+			sg := v.fsig[o.A]
+			pushDummy(b, sg)
+			b.Call(uint32(o.A))
+			for range sigs[sg].R {
+				b.Drop()
+			}
 		case "trap":
 			b.Unreachable()
 		default:
@@ -550,6 +567,16 @@ func (s *ModSpec) build(nonce string) []byte {
 			r = sigs[sg].R
 			pushDummy(b, sg)
 			b.Call(i)
+		case "gxcall":
+			sg, gvt := v.fsig[a.Idx], v.gt[a.Sig].vt
+			r = []byte{gvt, gvt}
+			b.GlobalGet(uint32(a.Sig))
+			pushDummy(b, sg)
+			b.Call(i)
+			for range sigs[sg].R {
+				b.Drop()
+			}
+			b.GlobalGet(uint32(a.Sig))
 		case "xcall":
 			sg := v.fsig[a.Idx]
 			p, r = []byte{I32}, []byte{I32, I32, I32}
